@@ -344,4 +344,41 @@ theorem setItem_hidden_root_refuse (cls : Cls) (kvs : List (Str × Val)) (e : Id
       have : tokenize [] = [] := by decide
       rw [this]; simp
 
+/-! ### (5) `P/[e]` with `e` denoting neither `0`, `-1` nor `1`: refused at any plain position -/
+
+/-- **`…P…/[e]/tail…` on the single value at ANY plain position `P`, `e` denoting `≥ 2` or `< -1`**: `SyntaxError`, the
+tree is the tree before the call -/
+theorem setItem_hidden_own_step_refuse (cls : Cls) (kvs : List (Str × Val)) (P : Pos) (old : Val) (e : IdxSp)
+    (tail : List Str) (v : Val) (fuel : Nat)
+    (hp : PlainPos P) (hP : getAt (.dict cls kvs) P = some old) (hs : isList old = false)
+    (he : e.val ≥ 2 ∨ e.val < -1) (ht : ∀ x ∈ tail, PlainKey x) (hf : fuel ≥ 2 * P.length + 1) :
+    setItem fuel (.dict cls kvs) (slash ++ renderPos P ++ slash ++ bracket e.text ++ renderPos (tail.map Seg.key)) v
+      = (.dict cls kvs, .error .SyntaxError) := by
+  have hlen := mergedToks_length_le P
+  obtain ⟨f', en, h1, _, hwalk⟩ := find_walk (.dict cls kvs) true (spellsF_merged P _ _ hp hP)
+    (bracket e.text :: tail) (by simp) fuel [] slash true rfl (by omega)
+  obtain ⟨f, rfl⟩ : ∃ f, f' = f + 1 := ⟨f' - 1, by omega⟩
+  rw [List.nil_append, hidden_find_miss f _ en true _ _ _ _ _ old tail hP hs e.idxTok (by omega)] at hwalk
+  have hhid := hidden_place_other fuel (.dict cls kvs) (.wrap (.at P)) e.val Val.none
+    (slash ++ renderPos P) (bracket e.text) tail (by omega)
+  have hadd : add (.dict cls kvs) (.wrap (.at P)) (some (bracket (intStr e.val))) (bracket e.text :: tail)
+      = (.dict cls kvs, .error .SyntaxError) := by
+    rcases hidden_addStep_refused (.dict cls kvs) (.at P) e.val e with h | h
+    · simp [add, h]
+    · simp [valOf, hP] at h
+  have htok : tokenize (slash ++ renderPos P ++ slash ++ bracket e.text ++ renderPos (tail.map Seg.key))
+      = mergedToks P ++ bracket e.text :: tail := by
+    rw [tokenize_then_names _ tail ht]
+    have : slash ++ renderPos P ++ slash ++ bracket e.text = ('/' :: renderPos P) ++ '/' :: bracket e.text := by
+      simp [slash]
+    rw [this, tokenize_append_slash, tokenize_render P hp, tokenize_bracket _ (hidden_cleanIdx e)]
+    simp
+  unfold setItem
+  simp only [show startsWith (slash ++ renderPos P ++ slash ++ bracket e.text ++ renderPos (tail.map Seg.key)) ['?']
+      = false by simp [slash, startsWith, List.append_assoc],
+    Bool.false_and, Bool.false_eq_true, if_false,
+    show hasPathChar (slash ++ renderPos P ++ slash ++ bracket e.text ++ renderPos (tail.map Seg.key)) = true by
+      simp [hasPathChar, slash],
+    if_true, htok, hwalk, hhid, List.isEmpty_cons, Bool.not_false, hadd]
+
 end N0.XPath
